@@ -283,18 +283,119 @@ pub fn family(name: &str, n: usize) -> String {
             s.push('.');
             s
         }
+        // chains: n stages, each moving three cells to the right; every stage multiplies two
+        // values derived from the previous stage's result. `chain_<stage>` at top level,
+        // `loopchain_<stage>` inside an input-driven loop that restores the pointer.
+        _ if name.starts_with("chain_") || name.starts_with("loopchain_") => {
+            let in_loop = name.starts_with("loopchain_");
+            let stage = match &name[name.find('_').unwrap() + 1..] {
+                // x -> two copies -> product of the copies (a square through distinct cells)
+                "square" => "[->+>+<<]>[->[->+>+<<]>>[-<<+>>]<<<]>>",
+                // the same, each result printed (forces every stage to be emitted)
+                "square_out" => "[->+>+<<]>[->[->+>+<<]>>[-<<+>>]<<<]>>.",
+                // the same with an increment between the stages (sums, not monomials)
+                "square_inc" => "+[->+>+<<]>[->[->+>+<<]>>[-<<+>>]<<<]>>",
+                // r -> r * (fresh input + 1)
+                "times_input" => ">,+<[->[->+>+<<]>>[-<<+>>]<<<]>>",
+                // x -> x * x * x through three copies
+                "cube" => "[->+>+>+<<<]>[->[->[->+>+<<]>>[-<<+>>]<<<]>>[-<+>]<<<]>[-]>[-]>[-<<+>>]<<",
+                _ => panic!("family"),
+            };
+            let mut s = String::from(if in_loop { ",[" } else { "," });
+            for _ in 0..n {
+                s.push_str(stage);
+            }
+            if in_loop {
+                s.push_str("[-]");
+                let net: i32 = stage.bytes().map(|b| (b == b'>') as i32 - (b == b'<') as i32).sum();
+                s.push_str(&"<".repeat(net as usize * n));
+                s.push_str(",]");
+            } else {
+                s.push('.');
+            }
+            s
+        }
         _ => panic!("family"),
     }
 }
 
-pub const FAMILIES: &[&str] = &["nested_multiply", "squarings", "rotation", "copies_into_one", "straight_line", "sequential_loops", "nested_ifs"];
+pub const FAMILIES: &[&str] = &[
+    "nested_multiply",
+    "squarings",
+    "rotation",
+    "copies_into_one",
+    "straight_line",
+    "sequential_loops",
+    "nested_ifs",
+    "chain_square",
+    "chain_square_out",
+    "chain_square_inc",
+    "chain_times_input",
+    "chain_cube",
+    "loopchain_square",
+    "loopchain_square_out",
+    "loopchain_square_inc",
+    "loopchain_times_input",
+    "loopchain_cube",
+];
+
+pub const FAMILY_SIZES: &[usize] = &[4, 8, 12, 16, 24, 32, 48, 64];
+/// address-space limit and watchdog for one family compilation
+const FAMILY_MEM: u64 = 6 << 30;
+const FAMILY_SECS: u32 = 60;
+
+/// Measure one family over FAMILY_SIZES. Returns (costs, first failure).
+/// Work measures are deterministic: allocator calls and allocated bytes of building all executors.
+/// Envelope: growing n by a factor r may grow either measure by at most r^5 (plus a fixed slack),
+/// i.e. any polynomial up to degree 5 passes, 2^n does not.
+pub fn measure_family(fam: &str) -> (Vec<(usize, u64, u64, u64)>, Option<String>) {
+    let mut costs: Vec<(usize, u64, u64, u64)> = Vec::new();
+    for &n in FAMILY_SIZES {
+        let code = family(fam, n);
+        let r = crate::props::batched(0, 1, 1, 0, |_| {
+            sys::set_alarm(FAMILY_SECS);
+            unsafe {
+                let lim = libc::rlimit { rlim_cur: FAMILY_MEM, rlim_max: FAMILY_MEM };
+                libc::setrlimit(libc::RLIMIT_AS, &lim);
+            }
+            match compile_cost(&code, 8, 3) {
+                Ok((calls, bytes, secs)) => {
+                    let sh = sys::shared();
+                    sh.scratch[10] = calls;
+                    sh.scratch[11] = (secs * 1e6) as u64;
+                    sh.scratch[12] = bytes;
+                    None
+                }
+                Err(e) => Some(e),
+            }
+        });
+        if let Some((_, why)) = r.first() {
+            let why = why.replace("watchdog (120 s)", &format!("watchdog ({FAMILY_SECS} s)"));
+            return (costs, Some(format!("family {fam}({n}), {} source characters: building the executors did not complete within {FAMILY_SECS} s and {} GiB of address space: {why}", code.len(), FAMILY_MEM >> 30)));
+        }
+        let sh = sys::shared();
+        costs.push((n, sh.scratch[10], sh.scratch[12], sh.scratch[11]));
+    }
+    for w in costs.windows(2) {
+        let ((n0, c0, b0, _), (n1, c1, b1, _)) = (w[0], w[1]);
+        let r5 = (n1 as f64 / n0 as f64).powi(5);
+        if c1 as f64 > r5 * c0 as f64 + 20_000.0 {
+            return (costs.clone(), Some(format!("family {fam}: allocator calls grow from {c0} (n={n0}) to {c1} (n={n1}), more than (n1/n0)^5 = {r5:.1}x + 20000")));
+        }
+        if b1 as f64 > r5 * b0 as f64 + (4u64 << 20) as f64 {
+            return (costs.clone(), Some(format!("family {fam}: allocated bytes grow from {b0} (n={n0}) to {b1} (n={n1}), more than (n1/n0)^5 = {r5:.1}x + 4 MiB")));
+        }
+    }
+    (costs, None)
+}
 
 /// Allocator calls needed to build all executors for `code` (deterministic work measure).
-fn compile_cost(code: &str, bits: u32, level: u32) -> Result<(u64, f64), String> {
-    let a0 = alloc::counters().0;
+fn compile_cost(code: &str, bits: u32, level: u32) -> Result<(u64, u64, f64), String> {
+    let a0 = alloc::counters();
     let t0 = std::time::Instant::now();
     artefacts_w(code, bits, level)?;
-    Ok((alloc::counters().0 - a0, t0.elapsed().as_secs_f64()))
+    let a1 = alloc::counters();
+    Ok((a1.0 - a0.0, a1.2 - a0.2, t0.elapsed().as_secs_f64()))
 }
 
 pub fn c13(args: &Args) -> i32 {
@@ -373,38 +474,25 @@ pub fn c13(args: &Args) -> i32 {
             t.distinct.insert(fnv64(format!("{}|{}", c.code, c.bits).as_bytes()));
         }
     }
-    // growth families (shard 0 .. FAMILIES.len())
-    if (args.shard as usize) < FAMILIES.len() {
-        let fam = FAMILIES[args.shard as usize];
-        let mut costs = Vec::new();
-        for n in [4usize, 8, 16, 32, 64] {
-            let code = family(fam, n);
-            let bits = 8;
-            let r = crate::props::batched(0, 1, 1, 0, |_| match compile_cost(&code, bits, 3) {
-                Ok((calls, secs)) => {
-                    let sh = sys::shared();
-                    sh.scratch[10] = calls;
-                    sh.scratch[11] = (secs * 1e6) as u64;
-                    None
-                }
-                Err(e) => Some(e),
-            });
-            if let Some((_, why)) = r.first() {
-                found.push((u64::MAX, format!("family {fam}({n}): {why}")));
-                break;
-            }
-            costs.push((n, sys::shared().scratch[10], sys::shared().scratch[11]));
+    // growth families: shard s measures families s, s + nshards, ...
+    let mut fam_fail: Vec<(String, String)> = Vec::new();
+    let nsh = (args.nshards as usize).max(1);
+    for (k, fam) in FAMILIES.iter().enumerate() {
+        if k % nsh != args.shard as usize {
+            continue;
         }
-        for w in costs.windows(2) {
-            let ((n0, c0, _), (n1, c1, _)) = (w[0], w[1]);
-            t.inc("growth_ratios_checked", 1);
-            // polynomial envelope: doubling n may multiply the allocator calls by at most 2^5
-            if c1 > 32 * c0 + 20_000 {
-                found.push((u64::MAX, format!("family {fam}: allocator calls grow from {c0} (n={n0}) to {c1} (n={n1}), more than 32x + 20000")));
-            }
+        let (costs, fail) = measure_family(fam);
+        t.inc("growth_ratios_checked", costs.len().saturating_sub(1) as u64);
+        t.inc("families_measured", 1);
+        if let Some(why) = fail {
+            fam_fail.push((fam.to_string(), why));
         }
-        let cs: Vec<String> = costs.iter().map(|(n, c, us)| format!("{{\"n\":{n},\"alloc_calls\":{c},\"micros\":{us}}}")).collect();
+        let cs: Vec<String> = costs.iter().map(|(n, c, b, us)| format!("{{\"n\":{n},\"alloc_calls\":{c},\"alloc_bytes\":{b},\"micros\":{us}}}")).collect();
         t.sample(Obj::new().s("family", fam).s("example_n4", &family(fam, 4)).raw("costs", &json::arr(&cs)).done());
+    }
+    for (fam, why) in fam_fail {
+        t.inc("violated", 1);
+        t.violation(&format!("family {fam}"), Obj::new().s("kind", "growth").s("family", &fam).s("program_n8", &family(&fam, 8)).n("case_seed", args.seed).s("why", &why));
     }
     for (i, why) in found {
         t.inc("violated", 1);
@@ -460,6 +548,30 @@ pub fn c13_replay(args: &Args) -> i32 {
                     bad += 1;
                 }
             }
+        }
+    }
+    if bad > 0 {
+        println!("VIOLATION property=C13 replay={}", args.get("replay-path").unwrap_or("-"));
+        1
+    } else {
+        println!("held");
+        0
+    }
+}
+
+/// `hv c13growth --family <name>|all`: re-measure growth families (replay of a "growth" violation).
+pub fn c13_growth(args: &Args) -> i32 {
+    let which = args.get("family").unwrap_or("all").to_string();
+    let mut bad = 0;
+    for fam in FAMILIES {
+        if which != "all" && which != *fam {
+            continue;
+        }
+        let (costs, fail) = measure_family(fam);
+        println!("{fam}: {:?}", costs);
+        if let Some(why) = fail {
+            println!("{why}");
+            bad += 1;
         }
     }
     if bad > 0 {
